@@ -96,6 +96,17 @@ func clusteredHistories(c *ctx) string {
 		}
 		searches = append(searches, s)
 	}
+	// two filtered searches with large k whose eligible sets both exceed one half and differ in
+	// either direction (all but the multiples of 5, then all but the multiples of 3)
+	for _, m := range []int{5, 3} {
+		s := c16Search{q: randVec(c, dims), filtered: true, k: 400}
+		for d := 0; d < nd; d++ {
+			if d%m != 0 {
+				s.eligible = append(s.eligible, uint64(d))
+			}
+		}
+		searches = append(searches, s)
+	}
 	run := func(seg segment.Segment, s c16Search) ([]vhit, string) {
 		return runSearch(seg.(segment.VectorSegment), "vec", s.q, s.k, s.except, s.except == nil, s.eligible, s.filtered)
 	}
